@@ -576,3 +576,9 @@ def check(model, rep, tier):
             line=conv.node.lineno,
             witness='internal_convert(f, ctx) with an ENABLED ctx whose body raises')
   rep.unit('modules', len(model.modules))
+
+  # ---------------------------------------------------------------- dependencies
+  rep.depends('C10', ['CACHE-KEY'],
+              'whether a converted function pushes ENABLED is baked into its '
+              'generated code (user_requested): the cache key must keep '
+              'user-requested and recursive conversions apart')
